@@ -44,7 +44,7 @@ _RULE = (
     "encoding absent, ISO-8859-1, UTF-16; xpointer; xml:base on the xi:include; fallback none, empty, text, elements+text, nested include (4 targets, with/without inner fallback), "
     "two fallbacks, xi:include child, fallback outside an include) x 8 forms of b.xml (plain; absolute / relative xml:base on the root; includes c; includes a (loop); "
     "document element is an include; include under a relative xml:base; includes itself) = 3 480; two includes per document: quick catalogue^2 x {first+last child} x plain b (7 569), "
-    "thorough catalogue^2 x 2 templates x 3 forms of b (45 414). (leak) catalogue x 3 contexts re-run with LeakSanitizer, leak check after every case. "
+    "thorough catalogue^2 x 2 templates x 3 forms of b (45 414). (leak) catalogue x 2 contexts (middle child + plain b; document element + b including a) re-run with LeakSanitizer, leak check after every case. "
     "(defects) one minimal reproducer per entry of KNOWN_DEFECTS, evaluated strictly. "
     "Every case is parsed by XercesDOMParser(setDoNamespaces, setDoXInclude, parse(systemId)) and DOMLSParser(namespaces, fgXercesDoXInclude, parseURI) under ASan+UBSan "
     "with the runner's crash pinning and 20 s watchdog. Oracle: reference XInclude 1.0 expander over expat trees: expected DOM dump (elements with namespace, attributes, "
